@@ -24,7 +24,7 @@ LockedSum(sq, now)  == SumSeqOf(LiveLocks(sq, now), LAMBDA l : l.amt)
 LockPairs(s) == UNION {{<<a, d>> : d \in DOMAIN s.commit.acct[a].committed \cap LockedShareDenoms(s)} : a \in CommitAccts(s)}
 
 \* the specification's own lock ledger starts from the recorded lock-ups of the first observed state
-GhostInit(s) == [donated |-> << >>, c12drift |-> << >>, vest |-> << >>,
+GhostInit(s) == [donated |-> << >>, c12drift |-> << >>, vest |-> << >>, batch |-> [reqs |-> << >>, opaque |-> FALSE],
                  locks |-> [x \in LockPairs(s) |-> LiveLocks(Lockups(s, x[1], x[2]), s.chain.t)]]
 GLocks(g, a, d) == IF <<a, d>> \in DOMAIN g.locks THEN g.locks[<<a, d>>] ELSE << >>
 
